@@ -195,6 +195,9 @@ func H_meta() {
 		case "self-union":
 			a, okA = vSelect(p, navAt(doc, cur, attr), max)
 			b, okB = vSelect(p+" | "+p, navAt(doc, cur, attr), max)
+		case "equiv": // two spellings of one path (abbreviation vs expansion): same sequence
+			a, okA = vSelect(p, navAt(doc, cur, attr), max)
+			b, okB = vSelect(vParam("expr2"), navAt(doc, cur, attr), max)
 		case "notnot":
 			e1, err1 := Compile("boolean(" + p + ")")
 			e2, err2 := Compile("not(not(" + p + "))")
@@ -221,7 +224,11 @@ func H_meta() {
 	}
 	vObserve("a", a)
 	vObserve("b", b)
-	vAssert(vSameSet(a, b), "same-node-set:"+mode)
+	if mode == "equiv" {
+		vAssert(vSameInts(a, b), "same-sequence:"+mode)
+	} else {
+		vAssert(vSameSet(a, b), "same-node-set:"+mode)
+	}
 	if len(a) > 0 {
 		vFlag("nontrivial")
 	}
